@@ -123,3 +123,19 @@ class Gate:
                 f.set_result(None)
                 return
         self._tokens += 1
+
+
+def asyncio_transport_of(adapter: Any) -> Any:
+    """The asyncio transport object held by one of the backend's socket adapters, whatever the attribute is called."""
+    import asyncio
+
+    for name in dir(adapter):
+        if name.startswith("__") and name.endswith("__"):
+            continue
+        try:
+            value = getattr(adapter, name)
+        except Exception:  # noqa: BLE001
+            continue
+        if isinstance(value, asyncio.BaseTransport):
+            return value
+    raise LookupError(f"no asyncio transport found on {adapter!r}")
